@@ -7,6 +7,7 @@
 -/
 import ClientGoVerif.Proofs.MvccLocks
 import ClientGoVerif.Proofs.MvccTemporal
+import ClientGoVerif.Proofs.MvccSI
 namespace CGV.Props.C06
 open CGV CGV.Mvcc
 
@@ -40,5 +41,18 @@ theorem finished_key_never_relocked (s : Store) (c : Cmd) (hs : SInv s) (hok : c
   obtain ⟨lab, hlab, hst⟩ := (run_refines s c hs hok).2 k
   refine ⟨lab, hlab, hst, fun heq => ?_⟩
   exact hst.final (hs.2 k) hrec (by rw [heq]; rfl)
+
+/-- released keys stay released, for every run: once a key carries no lock of `T` (its lock was committed, rolled back or
+    pessimistically rolled back), NO later command sequence — other transactions' traffic, resolvers, GC, status
+    checks, heartbeats — leaves a lock of `T` on it, unless `T` itself sends a new prewrite / pessimistic-lock request
+    for that key (the only commands with a `locks T` step) -/
+theorem released_key_stays_released (T : Nat) (k : Bytes) (s : Store) (cs : List Cmd) (hs : SInv s) (hok : OkAll s cs)
+    (hg : GuardAll (fun _ lab => lab ≠ .locks T) k s cs) (hf : LockFreeOf (getEntry s.kv k) T) :
+    LockFreeOf (getEntry (runAll s cs).kv k) T :=
+  runAll_lockfree T k s cs hs hok hg hf
+
+/-- a commit or rollback step of `T` on a key leaves the key without any lock -/
+theorem commit_or_rollback_step_releases {e e' : Entry} {lab : KLabel} {T : Nat} (h : KStep e lab e')
+    (hl : (∃ C, lab = .commit T C) ∨ lab = .rollback T) : e'.lock = none := h.release hl
 
 end CGV.Props.C06
